@@ -147,13 +147,17 @@ theorem sendClient_spec (c : Cfg) (σ : Core) (m : Msg) :
     ((sendClient c σ m).1 = σ ∨ (sendClient c σ m).1 = crashed σ) ∧
     (∀ o ∈ (sendClient c σ m).2, o = .crash ∨ ∃ w, o = .toClient m w) := by
   unfold sendClient
-  cases pack c.I m <;> simp
+  cases pack c.I m with
+  | none => simp
+  | some b => cases hw : wireOf? c.tcp b <;> simp [hw]
 
 theorem sendServer_spec (c : Cfg) (σ : Core) (m : Msg) :
     ((sendServer c σ m).1 = σ ∨ (sendServer c σ m).1 = crashed σ) ∧
     (∀ o ∈ (sendServer c σ m).2, o = .crash ∨ ∃ w, o = .toServer m w) := by
   unfold sendServer
-  cases pack c.I m <;> simp
+  cases pack c.I m with
+  | none => simp
+  | some b => cases hw : wireOf? c.tcp b <;> simp [hw]
 
 theorem Inv_crashed {A : List Msg} {σ : Core} (h : Inv A σ) : Inv A (crashed σ) := h
 
@@ -473,10 +477,16 @@ theorem TraceOk_append {A : List Msg} : ∀ (t1 t2 : List Out) (S : List Msg),
     exact and_assoc.symm
 
 theorem sendClient_plain (c : Cfg) (σ : Core) (m : Msg) : Plain (sendClient c σ m).2 := by
-  unfold sendClient; cases pack c.I m <;> simp [Plain, reqOf]
+  unfold sendClient
+  cases pack c.I m with
+  | none => simp [Plain, reqOf]
+  | some b => cases hw : wireOf? c.tcp b <;> simp [Plain, reqOf, hw]
 
 theorem sendServer_plain (c : Cfg) (σ : Core) (m : Msg) : Plain (sendServer c σ m).2 := by
-  unfold sendServer; cases pack c.I m <;> simp [Plain, reqOf]
+  unfold sendServer
+  cases pack c.I m with
+  | none => simp [Plain, reqOf]
+  | some b => cases hw : wireOf? c.tcp b <;> simp [Plain, reqOf, hw]
 
 theorem handleResponse_plain (c : Cfg) (σ : Core) (k : Nat) (f : Flow) (m : Msg) : Plain (handleResponse c σ k f m).2 := by
   unfold handleResponse
